@@ -125,6 +125,9 @@ def universe(thorough: bool) -> typing.List[TypeDef]:
         out.append(TypeDef(f"L5pad{tag}a", "L5", f"{arr} v\nNS.Ifs.1.0[<=2] cs\nbool z\n@sealed\n", tag in ("b8", "u3x8"), ("Ifs",)))
         out.append(TypeDef(f"L5pad{tag}u", "L5", f"@union\n{arr} v\nNS.Ifs.1.0 c\n@sealed\n", tag == "b8", ("Ifs",)))
     out.append(TypeDef("L5padvv", "L5", "bool[<=8] v\nbool[<=8] w\nNS.Ivs.1.0 c\ntruncated uint4[<=2] q\nNS.Ifs.1.0[2] cs\n@sealed\n", True, ("Ivs", "Ifs")))
+    # services: request and response are separate codec types living in one header / one Python class
+    out.append(TypeDef("L5svc", "L5", "truncated uint3 p\nint13 a\nbool[<=9] f\n@sealed\n---\nNS.Ifd.1.0[<=2] r\nfloat16 h\n@extent 256\n", True, ("Ifd",)))
+    out.append(TypeDef("L5svcu", "L5", "@union\nuint8 a\nuint16[<=2] v\n@sealed\n---\n@union\nbool ok\nNS.Ius.1.0 u\n@extent 64\n", True, ("Ius",)))
     out.append(TypeDef("L5const", "L5", "uint8 A = 255\nint64 B = -9223372036854775807\nfloat32 C = 1.0 / 3.0\nbool D = true\nuint8 x\n@sealed\n", True))
     return out
 
